@@ -194,6 +194,8 @@ def _tuple(ex, args, kwargs, node):
 
 
 def _minmax(ex, args, node, is_max):
+  args = [ex.need_not_none(a, node, 'argument of min/max') if isinstance(
+      a, (VOpt, VNone)) else a for a in args]
   if len(args) == 2 and all(is_numeric(a) for a in args):
     a, b = args
     ta, tb = num_term(a), num_term(b)
